@@ -18,6 +18,7 @@ Constructs outside the modelled subset fail closed (Undecided).
 """
 import itertools
 import re
+import libmodel
 
 _NUM = re.compile(r"\d+")
 
@@ -280,6 +281,10 @@ class Opaque(object):
 
     def __init__(self, tag, args):
         self.tag, self.args = tag, args
+
+
+def is_extra(v):
+    return isinstance(v, Opaque) and v.tag == "extra"
 
 
 class Closure(object):
@@ -635,6 +640,11 @@ class Interp(object):
     def binop(self, st, op, x, y, tya, dest_ty):
         wo = op.endswith("WithOverflow")
         base = op[:-12] if wo else op
+        if is_extra(x) or is_extra(y):
+            # state outside the modelled fields (a counter, a start mark): its values stay opaque; they may be combined and stored back, but
+            # any decision, index or buffer write depending on them is Undecided (compare / decide / write_byte reject Opaque)
+            r = Opaque("extra", ())
+            return Tup([r, Opaque("extra", ())]) if wo else r
         if isinstance(x, bool):
             x = int(x)
         if isinstance(y, bool):
@@ -891,6 +901,8 @@ class Interp(object):
         c = t.get("resolved") or t["callee"]
         args = [self.operand(st, a) for a in t["args"]]
         short = c.rsplit("::", 1)[-1]
+        if any(is_extra(a) for a in args) and libmodel.is_safe(c) and all(is_extra(a) or isinstance(a, (int, bool)) for a in args):
+            return Opaque("extra", ())
         if c == "core::slice::<impl [T]>::len":
             return self.slice_len(args[0])
         if c in ("core::slice::<impl [T]>::iter", "core::slice::<impl [T]>::iter_mut"):
@@ -1316,9 +1328,12 @@ class Interp(object):
 
 
 # ------------------------------------------------------------------ specification checks
-def initial_state(kind, r, w, W):
+def initial_state(kind, r, w, W, field_order=(0, 1), nfields=2):
     st = State()
-    st.self_fields = Tup([Ref(("slice", 0, None)), Lin(8, r)])
+    fl = [Opaque("extra", ()) for _ in range(max(nfields, 2))]
+    fl[field_order[0]] = Ref(("slice", 0, None))
+    fl[field_order[1]] = Lin(8, r)
+    st.self_fields = Tup(fl)
     st.locals[1] = Ref(("self", ()))
     if kind == "put":
         st.locals[2] = bv_sym("A", W)
@@ -1328,12 +1343,10 @@ def initial_state(kind, r, w, W):
     return st
 
 
-def check_partition(prog, f, kind, r, w, W, field_order=(0, 1)):
-    """Returns (problems, stats).  field_order: indices of (data, offset) in the struct."""
+def check_partition(prog, f, kind, r, w, W, field_order=(0, 1), nfields=2):
+    """Returns (problems, stats).  field_order: indices of (data, offset) in the struct; other fields hold opaque values."""
     it = Interp(prog, f, kind, r, w, W)
-    st = initial_state(kind, r, w, W)
-    if field_order != (0, 1):
-        st.self_fields = Tup([Lin(8, r), Ref(("slice", 0, None))])
+    st = initial_state(kind, r, w, W, field_order, nfields)
     i_off = field_order[1]
     problems = []
     try:
@@ -1419,13 +1432,13 @@ def check_partition(prog, f, kind, r, w, W, field_order=(0, 1)):
     return problems, it
 
 
-def analyse(prog, path, kind, widths=(8, 16, 32, 64), field_order=(0, 1)):
+def analyse(prog, path, kind, widths=(8, 16, 32, 64), field_order=(0, 1), nfields=2):
     f = prog.fn(path)
     out = {"partitions": 0, "asserts_decided": 0, "assert_sites": set(), "shift_sites": set(), "problems": {}}
     for W in widths:
         for w in range(1, W + 1):
             for r in range(8):
-                probs, it = check_partition(prog, f, kind, r, w, W, field_order)
+                probs, it = check_partition(prog, f, kind, r, w, W, field_order, nfields)
                 out["partitions"] += 1
                 out["asserts_decided"] += sum(s.asserts for s, _ in it.results)
                 out["assert_sites"] |= it.assert_sites
